@@ -915,6 +915,9 @@ func main() {
 				r.Fail("data-race", rep, map[string]any{"kind": "racepass", "gomaxprocs": procs})
 			case strings.Contains(txt, "RACEPASS-MISMATCH"):
 				r.Fail("wrong-response-free-running", firstLines(txt[strings.Index(txt, "RACEPASS-MISMATCH"):], 4), map[string]any{"kind": "racepass", "gomaxprocs": procs})
+			case strings.Contains(txt, "panic: ") && strings.Contains(txt, "github.com/go-openapi/runtime"):
+				// the code under test panicked while free-running calls were in flight
+				r.Fail("panic-free-running", firstLines(txt[strings.Index(txt, "panic: "):], 14), map[string]any{"kind": "racepass", "gomaxprocs": procs})
 			case err != nil:
 				fmt.Fprintf(os.Stderr, "internal error: race pass failed: %v\n%s\n", err, txt)
 				os.Exit(2)
@@ -991,7 +994,19 @@ func checkHistory(hc HistCase) (string, string) {
 					k = kept{resp, resp.GetHeader("X-Seq"), resp.Code()}
 					return nil, nil
 				})}
-			_, err := rt.Submit(o)
+			var err error
+			var pan string
+			func() {
+				defer func() {
+					if e := recover(); e != nil {
+						pan = fmt.Sprint(e)
+					}
+				}()
+				_, err = rt.Submit(o)
+			}()
+			if pan != "" {
+				return "history/panic", at + ": Submit panics: " + pan
+			}
 			want, ok := reg[ct]
 			if !ok {
 				want, ok = reg["*/*"]
